@@ -45,7 +45,26 @@ CHECKS = {
  "C19": dict(tech=E2,
    text="Keys {1,2,n-2,Annex,seeded,searched byte patterns} through every encoder/decoder (SEC1 both forms, hex, SPKI DER/PEM LF+CRLF, bytes, PKCS#8 DER/PEM) with an independent DER reader on the library's documents; 20 OpenSSL key pairs; every length 0..=130 (bytes) / 0..=140 (hex) at the decoders, off-curve / unreduced / foreign-tag points via new, hex and SPKI; ASN.1 ciphertexts for ephemeral scalars pre-searched so that C1.x / C1.y have 1..3 leading zero bytes, trailing zeros or the high bit set: document = GM/T 0009 SEQUENCE byte for byte, decrypt_asn1 of library, reference and OpenSSL documents returns M, malformed DER refused without panic.",
    note="Trusted base: refmodels::der (60-line reader/writer), OpenSSL corpus. Private-key range (d=0, d>=n-1) is judged by C20, not here.", ref="§3 C19"),
+ "C09": dict(tech=E2 + " with the nonce injected at an RNG seam; fault enumeration of valid signatures",
+   text="Signing: master keys {Annex ks,1,N-2,seeded} x nonces {1,2,N-2,Annex r,2^255+1,seeded} and identities x message lengths {0,1,20,55,56,64,1024}: (h,S) equals the reference signature for the accepted r (GM/T 0044.5 example pinned), h in [1,N-1], S on the curve, accepted by the library. Verification: reference-made signatures accepted as they are and with S re-represented; all 256 single-bit flips of h, h in {0,1,N-1,N,N+1,2^256-1,h+N}, S in {-S,2S,P1,ds,infinity,off-curve,(0,0)}, altered message/identity/master public key refused with an error, never a panic.",
+   note="Trusted base: refmodels::sm9 (polynomial-basis Fp12, generic Miller loop) pinned by the Annex g, ds, h, S. Forgeries are invalid by construction (no reference verification per forgery).", ref="§3 C09"),
+ "C10": dict(tech=E2 + " with the nonce injected at an RNG seam; fault enumeration of valid ciphertexts",
+   text="Encryption: every message length 1..=255, masters x identities x nonces at length 20, the GM/T 0044.5 example: ciphertext = reference C1||C3||C2 byte for byte (MAC = SM3(C2||K2)), library and reference decryptors recover M. Decryption of reference-made ciphertexts: every single-bit flip, every truncation, extension, over-long body, other identity, foreign tag, C1 off-curve with the original body and with the body recomputed for the foreign point via the library's own pairing (invalid-curve attack), (0,0), unreduced x, another valid point - all refused with an error, never a plaintext, never a panic.",
+   note="Trusted base: refmodels::sm9 pinned by the Annex C1, C2, C3. Messages over 255 bytes are outside the property.", ref="§3 C10"),
+ "C12": dict(tech=E2,
+   text="P=[b]P1, Q=[a]P2 over {1,2,3,N-1,N-2,2^128,Annex ks,seeded}: full product a x b compared byte for byte (384 bytes) with e(P1,P2)^(ab) from the reference; the diagonal and a spread of pairs against a full reference evaluation on those very points; every pair again with Jacobian inputs Z != 1; e(P1,P2) != 1 and of order N; GM/T 0044.5 value of e(P1,Ppub-s).",
+   note="Trusted base: refmodels::sm9::pairing (generic Miller loop over 6t+2, two Frobenius steps, exponent (p^12-1)/N by square-and-multiply). The identity element is never paired.", ref="§3 C12"),
+ "C13": dict(tech=E2,
+   text="Fp / mod N limb-pattern and boundary alphabets; Fp2 all 24x24 boundary elements (unary on all, binary on a 1/5 stride of pairs, thorough all pairs); Fp4 all 6^4 elements; Fp12 one element per subset of zero components (4096) + basis: every unary op incl. the four Frobenius maps and inversion, mul/add/sub against 64 partners, pow, sparse line multiplication with every zero pattern; Booth recoding for w in {5,7}; G1/G2: [j]P x 4 Jacobian representations + infinity, all ordered pairs through add/sub/add_full/equality, scalar multiplication over every Booth (window,digit) combination, multiplication sequences over related bases, all 37x64 fixed-base table entries; against polynomial-basis and affine big-integer arithmetic.",
+   note="Trusted base: refmodels (Fp12 = Fp[w]/(w^12+2)). One known finding is listed (TwistPoint::point_equals ignores y). Non-canonical operands are never fed to the arithmetic.", ref="§3 C13"),
+ "C16": dict(tech=E2,
+   text="Ha = q(N-1)+r over boundary/seeded q x r (incl. r in {0..5}, N-3, N-2), all-ones word patterns and seeded values through mod_n_from_hash; H1 for every identity length 0..=300 x hid x 2 contents; H2 over 36 length pairs; extraction for 7 master keys x 5 identities x {sign,enc,exch} and master keys crafted so that H1+k = 0, +-1: results equal (Ha mod (N-1))+1 and [k(H1+k)^-1]P, failure reported exactly when H1+k = 0.",
+   note="Trusted base: big-integer arithmetic in refmodels::sm9; Annex ds_A / de_B pinned in the reference self-test.", ref="§3 C16"),
+ "C17": dict(tech=E1 + " (protocol model with a man in the middle)",
+   text="stateright enumeration of all adversary choices for R_A->B and R_B->A ({pass, re-randomised, -R, 2R, P1, off-curve}^2) per configuration on the real exch_step_1a/1b/2a with seam-fixed ephemeral scalars, plus honest paths for every klen 1..=128: honest runs give SK_A = SK_B = reference KDF(ID_A||ID_B||R_A||R_B||g1||g2||g3) (GM/T 0044.5 example included); off-curve R refused; any other altered R makes the keys differ; no panic.",
+   note="Trusted base: refmodels::sm9::exchange (three reference pairings per configuration). The optional confirmation hashes of GM/T 0044.3 are not implemented by the library and not part of the property.", ref="§3 C17"),
 }
+
 
 
 NOT_YET = {
